@@ -139,9 +139,12 @@ def run(tier, seed):
                     rep.check(rid, const_val(s) == 0, "extract_file: constant result is 0", ef.file, "const %s" % const_val(s), function=ef.cname, obj="const")
                 else:
                     n += 1
-                    okc = M.match(("call", "do_decode", [("param", 0), ("call", "open_output_file", [("param", 0), ANY])]), s, {}) is not None
+                    # the output stream is what lha_arch_fopen returned (the helper that gathers owner/permissions is folded in by the normalised view)
+                    OUT = ("bind", "out", ("call", "lha_arch_fopen", [ANY, ANY, ANY, ANY]))
+                    e_ = M.match(("call", "do_decode", [("param", 0), OUT]), s, {})
+                    okc = e_ is not None
                     f1, _ = M.find_fact(("ne", ("call", "open_decoder", [("param", 0), ("param", 2), ("param", 3)]), 0), fs)
-                    f2, _ = M.find_fact(("ne", ("call", "open_output_file", [("param", 0), ANY]), 0), fs)
+                    f2, _ = M.find_fact(("ne", ("inst", e_["out"][1]), 0), fs) if okc else (None, None)
                     rep.check(rid, okc and f1 is not None and f2 is not None, "extract_file: result is do_decode(reader, fstream)",
                               ef.defn(s).where() if ef.defn(s) else ef.file, describe(ef, s), function=ef.cname, obj="verdict")
             if n == 0:
